@@ -336,6 +336,10 @@ class Algebra:
                 if sn * sn == c.numerator and sd * sd == c.denominator:
                     # monomial perfect square; atoms under a square root are taken non-negative (recorded by callers)
                     return Rat(Poly({tuple((k, e // 2) for (k, e) in m): Fraction(sn, sd)}))
+                if m:
+                    # c * (monomial)^2 with c not a rational square: sqrt(c) stays an algebraic constant
+                    root_c = self.sqrt(Rat(Poly.const(c)))
+                    return self.norm(root_c * Rat(Poly({tuple((k, e // 2) for (k, e) in m): Fraction(1)})))
         name = f"sqrt[{r.n!r}]"
         self.rules[name] = r.n
         return Rat(Poly.atom(name))
